@@ -521,9 +521,21 @@ impl Scenario for Flow {
                         let site = v.site.clone();
                         let s = ex.report(v);
                         if undecodable {
-                            let _ = ex.report(Violation::new("C13", "C13.encoded_undecodably", site, detail));
+                            let _ = ex.report(Violation::new("C13", "C13.encoded_undecodably", site.clone(), detail.clone()));
                         }
                         let _ = s;
+                        // the round-trip oracle of the target property sees the consequence: feed what was reported
+                        if let Some(n) = res.n() {
+                            if n <= buf.len() && len <= maxpdu && intended.is_some() && !exts.iter().any(|e| e.0 < 0x100 && table.lookup(e.0) == MExt::Unknown) {
+                                let r = rx.decap(&buf[..n]);
+                                let want = if matches!(res, TxRes::Complete(_)) { "completed" } else { "fragmented" };
+                                let okc = r.class() == want && r.consumed() == Some(n);
+                                if !okc {
+                                    let prop_rt: &'static str = if !exts.is_empty() { "C13" } else if want == "completed" { "C01" } else { "C02" };
+                                    let _ = ex.report(Violation::new(prop_rt, if prop_rt == "C01" { "C01.not_delivered" } else if prop_rt == "C02" { "C02.not_delivered" } else { "C13.not_delivered" }, format!("malformed_emission:{}", site), format!("the packet reported by the sender ({} bytes) is not accepted by the receiver as {} ({}): {}", n, want, r.class(), detail)));
+                                }
+                            }
+                        }
                         ex.st.inc("aborted_by_malformed_emission");
                         stop!();
                     }
@@ -548,6 +560,10 @@ impl Scenario for Flow {
                                 }
                                 if *e == EncapError::ErrorSizeBuffer && buf_len >= 13 {
                                     if ex.report(Violation::new("C02", "C02.rejects_13_byte_buffer", "encap", format!("buffer {} rejected (pdu {})", buf_len, len))) {
+                                        stop!();
+                                    }
+                                } else if buf_len >= 13 && len + 2 + lab.len() <= 65535 {
+                                    if ex.report(Violation::new("C02", "C02.fitting_pdu_refused", format!("encap:{:?}", e), format!("pdu {} + 2 + label {} fits the 16-bit total length, buffer {}: {:?}", len, lab.len(), buf_len, e))) {
                                         stop!();
                                     }
                                 }
@@ -705,7 +721,18 @@ impl Scenario for Flow {
                         }
                     }
                     if let Some(v) = v6 {
+                        let (site, detail) = (v.site.clone(), v.detail.clone());
                         let _ = ex.report(v);
+                        if let Some(n) = res.n() {
+                            if n <= buf.len() && !flights[fi].tainted && !flights[fi].must_reject {
+                                let r = rx.decap(&buf[..n]);
+                                let want = if matches!(res, TxRes::Complete(_)) { "completed" } else { "fragmented" };
+                                if !(r.class() == want && r.consumed() == Some(n)) {
+                                    let prop_rt: &'static str = if flights[fi].has_ext { "C13" } else { "C02" };
+                                    let _ = ex.report(Violation::new(prop_rt, if prop_rt == "C02" { "C02.not_delivered" } else { "C13.not_delivered" }, format!("malformed_emission:{}", site), format!("the packet reported by encap_frag ({} bytes) is not accepted by the receiver as {} ({}): {}", n, want, r.class(), detail)));
+                                }
+                            }
+                        }
                         ex.st.inc("aborted_by_malformed_emission");
                         stop!();
                     }
@@ -1023,6 +1050,9 @@ pub mod gen {
     pub const L3B: Lab = Lab::L3([0x00, 0x00, 0x01]);
 
     pub fn label(rng: &mut Rng, with_reuse: bool) -> Lab {
+        if rng.chance(1, 12) {
+            return special_label(rng);
+        }
         let n = if with_reuse { 6 } else { 5 };
         match rng.below(n) {
             0 => L6A,
@@ -1033,7 +1063,20 @@ pub mod gen {
             _ => Lab::ReUse,
         }
     }
+    pub fn special_label(rng: &mut Rng) -> Lab {
+        match rng.below(6) {
+            0 => Lab::L3([0, 0, 0]),
+            1 => Lab::L6([0, 0, 0, 0, 0, 1]),
+            2 => Lab::L6([0xFF; 6]),
+            3 => Lab::L3([0xFF; 3]),
+            4 => Lab::L6([0x80, 0, 0, 0, 0, 0]),
+            _ => Lab::L3([0, 0, 0x80]),
+        }
+    }
     pub fn addr_label(rng: &mut Rng) -> Lab {
+        if rng.chance(1, 8) {
+            return special_label(rng);
+        }
         match rng.below(5) {
             0 => L6A,
             1 => L6B,
